@@ -101,6 +101,12 @@ inline bool valid_for_c01(const Snap &s) {
     if (!state_valid_for_c01(s)) { history_in_contract() = false; return false; }
     return !degenerate_faces(s);
 }
+// in contract, degenerate faces allowed: for the oracles that compare definitions / identities and never count multiplicities
+inline bool in_contract(const Snap &s) {
+    if (!history_in_contract()) return false;
+    if (!state_valid_for_c01(s)) { history_in_contract() = false; return false; }
+    return true;
+}
 inline bool state_valid_for_c01(const Snap &s) {
     // the quantifier of C01: no halfface belongs to two live cells
     std::map<int, int> owner;
@@ -215,7 +221,8 @@ inline void oracle_counts(const Snap &b, OracleOut &out, const char *prop) {
 }
 
 inline void oracle_C02(const Snap &a, const Snap &b, char kind, int x, OracleOut &out) {
-    if (!valid_for_c01(a) || !refs_ok(b)) { if (!refs_ok(b)) out.fail("C02", "a stored handle is out of range after deletion"); return; }
+    if (!in_contract(a)) return;
+    if (!refs_ok(b)) { out.fail("C02", "a stored handle is out of range after deletion"); return; }
     std::set<int> dv, de, df, dc;
     closure(a, kind, x, dv, de, df, dc);
     Logical want = logical(a, dv, de, df, dc), got = logical(b);
@@ -285,7 +292,7 @@ inline void oracle_C03(const Snap &a, const Snap &b, OracleOut &out, bool struct
 
 // ---------------------------------------------------------------- C04: collect_garbage preserves the logical mesh
 inline void oracle_C04(const Snap &a, const Snap &b, OracleOut &out) {
-    if (!valid_for_c01(a)) return;
+    if (!in_contract(a)) return;
     if (!refs_ok(b)) { out.fail("C04", "a stored handle is out of range after garbage collection"); return; }
     if (!(logical(a) == logical(b))) out.fail("C04", "the logical (not-deleted) mesh changed across garbage collection");
     if (b.needs_gc) out.fail("C04", "needs_garbage_collection() still true after collection");
@@ -298,7 +305,7 @@ inline void oracle_C04(const Snap &a, const Snap &b, OracleOut &out) {
 // StatusAttrib::garbage_collection: removed set = closure of the marks (+ manifoldness rule), tracked handles designate the
 // same entity (by identity tokens) or are invalid
 inline void oracle_C04_status(const Snap &a, const Snap &b, const std::vector<std::string> &echo, const std::string &trk, OracleOut &out) {
-    if (!valid_for_c01(a)) return;
+    if (!in_contract(a)) return;
     if (!refs_ok(b)) { out.fail("C04", "a stored handle is out of range after StatusAttrib::garbage_collection"); return; }
     std::map<std::string, std::vector<int>> g; std::string cur;
     for (size_t i = 2; i < echo.size(); ++i) { const std::string &t = echo[i];
